@@ -1,7 +1,7 @@
 """C01 / C02: two small term-level rules of funsor/terms.py that were repaired in this session, over an opaque term model.
 
 eager_getslice_lambda(op, x): x = Lambda(k: Bint[n], body), x[index] with index normalised to (head,) + tail:
-  head an int h     -> the leading dim disappears:          body(k=h)[tail]
+  head an int h     -> the leading dim disappears:          body(k=h)[tail]   (h < 0 counts from the end: k = n + h)
   head slice(None)  -> the leading dim stays as it is:      Lambda(k: Bint[n], body[tail])
   head a proper slice s and body does NOT mention k
                     -> only the dim's size changes:         Lambda(k: Bint[len(range(*s.indices(n)))], body[tail])
@@ -105,6 +105,7 @@ class EagerGetsliceLambda(Contract):
     mutants = (
         ("dim eliminated whenever the body does not mention the variable (pre-fix behaviour)", "    if isinstance(head, int):  # dim is eliminated, e.g. x[0]", "    if x.var.name not in expr.inputs:"),
         ("size of the sliced dim not updated", "        var = Variable(var.name, Bint[size])\n", ""),
+        ("negative index substituted as it is (pinned-tree behaviour)", "        head += x.var.output.size  # negative indices count from the end\n", "        pass\n"),
     )
 
     def structures(self, tier):
@@ -156,7 +157,7 @@ class EagerGetsliceLambda(Contract):
             return T(("getslice", t.rec, repr(norm_tail)), list(t.inputs)) if norm_tail else t
 
         if isinstance(h, int):
-            exp = sl(body(k=h))
+            exp = sl(body(k=h if h >= 0 else h + n))  # a negative index counts from the end, as in numpy
             return [("int_index_eliminates_the_dim", result == exp)]
         if h is Ellipsis or h == slice(None):
             exp = LambdaT(VarT("k", BintM(n)), sl(body))
